@@ -102,6 +102,19 @@ CLAIMED["C05"] = dict(
     technique=E2 + "; LIA/NIA over symbolic extents, view/box theory with a torch.split contract stub",
 )
 
+CLAIMED["C15"] = dict(
+    category="proof",
+    text=("The nested recursive function is rebuilt from the real code object and executed one level at a time on symbolic extents, start and end with the contract "
+          "assumed at its recursive calls (structural induction, dimension concrete, orders 0..5, both copies): every recursive-call precondition, every narrow/view "
+          "side condition and the postcondition (ordered gap-free chain from start to end, empty range gives [], every explicit piece a non-empty slab m x shape[d+1:] "
+          "aligned to R_d inside one cell of R_{d-1}, as a narrow/view of the shard) are discharged for all integers; a relational obligation proves the FSDP and HSDP "
+          "copies return identical pieces. Minimality is NOT proved (bounded: exhaustive small shapes vs a DP optimum)."),
+    design_ref="DESIGN.md §4/C15",
+    note=("narrow/view contracts assumed; recursion by contract; nonlinear integer arithmetic with explicit div/mod axiom instances; products of extents kept atomic; "
+          "minimality bounded only (numel <= 24 quick / 64 thorough, exhaustive); wrapper checked by run-time contract evaluation on all small shapes"),
+    technique=E2 + "; recursion by contract on the real nested code object, NIA with div/mod axiom instances, relational obligation for the two copies",
+)
+
 NOT_YET = "no check committed yet for this property (work in progress; see DESIGN.md for the planned contract)"
 
 
